@@ -7,9 +7,11 @@ import (
 	"math/big"
 
 	"github.com/Oneledger/protocol/action"
+	action_eth "github.com/Oneledger/protocol/action/eth"
 	action_gov "github.com/Oneledger/protocol/action/governance"
 	"github.com/Oneledger/protocol/action/transfer"
 	"github.com/Oneledger/protocol/data/balance"
+	"github.com/Oneledger/protocol/data/keys"
 	"github.com/Oneledger/protocol/data/governance"
 	"github.com/Oneledger/protocol/identity"
 	tmtypes "github.com/tendermint/tendermint/types"
@@ -401,4 +403,60 @@ func SV_C04_wrong_signer_erc20() {
 	svCurrencyLimit = 1
 	m := svERCEnv()
 	svWrongSigner(m.e, m.raw, m.signers)
+}
+
+// SV_C04_key_algorithms: the key-algorithm label of a signature slot is
+// attacker-chosen; relabelling a known public key must not make junk bytes a
+// signature, for the account of that key or for an empty signer address.
+//
+// sv:bounds one concrete SEND (valid fee) from the account of a known secp256k1 key, or from an empty address; the signature slot carries that key's 33 public key bytes under the labels ed25519, secp256k1, btcecsecp or an unknown one, with 64 or 65 zero bytes as the signature
+// sv:outside genuine secp256k1 / btcec signatures and the ethsecp label (the elliptic-curve code is not interpreted: address derivation and the parsers' refusal of zero bytes are native intrinsics, the point decompression is the model svModel_GetHandler, which knows this one key)
+// sv:goal Validate refuses every one of them
+func SV_C04_key_algorithms() {
+	e := svNewEnv(2, 2, nil)
+	from := keys.SVKnownSecpAddr
+	if sv.Choice("from.empty", 2) == 1 {
+		from = nil
+	}
+	msg := &transfer.Send{From: from, To: svParty_(1).Addr, Amount: action.Amount{Currency: "OLT", Value: *balance.NewAmount(1)}}
+	data, err := msg.Marshal()
+	if err != nil {
+		sv.Unreachable("marshal")
+	}
+	raw := action.RawTx{Type: action.SEND, Data: data, Memo: "m",
+		Fee: action.Fee{Price: action.Amount{Currency: "OLT", Value: *balance.NewAmount(2000000000)}, Gas: 100000}}
+	label := []keys.Algorithm{keys.ED25519, keys.SECP256K1, keys.BTCECSECP, keys.Algorithm(77)}[sv.Choice("key.label", 4)]
+	sig := make([]byte, 64+sv.Choice("sig.extra", 2))
+	tx := action.SignedTx{RawTx: raw, Signatures: []action.Signature{{Signer: keys.PublicKey{KeyType: label, Data: keys.SVKnownSecpPub}, Signed: sig}}}
+	// the signature gate itself (every kind's Validate calls it first) ...
+	gate := action.ValidateBasic(tx.RawBytes(), msg.Signers(), tx.Signatures)
+	sv.Assert(gate != nil, "signature-gate-refuses-a-relabelled-key-with-a-junk-signature")
+	// ... and the kind's whole Validate
+	ok := e.validate(tx)
+	sv.Assert(!ok, "relabelled-key-with-junk-signature-is-refused")
+	sv.Cover(!ok, "rejected")
+	sv.Observe("gate", gate == nil)
+	sv.Observe("ok", ok)
+}
+
+// SV_C04_empty_signer_lock: a kind whose Validate has no address check of its
+// own (ETH_LOCK), naming an empty locker, with a relabelled key and a junk
+// signature, through the real CheckTx.
+//
+// sv:bounds the Ethereum options and witnesses of SV_C15_handlers, no tracker; ETH_LOCK with an empty Locker carrying the good lock of 5 wei; the signature slot as in SV_C04_key_algorithms (label btcecsecp, 64 zero bytes)
+// sv:outside as SV_C04_key_algorithms
+// sv:goal CheckTx refuses (what a delivery without Validate does is the known finding of SV_C04_deliver_requires_validation)
+func SV_C04_empty_signer_lock() {
+	svCurrencyLimit = 1
+	svLean = true
+	pre := &svEthPre{}
+	e := svNewEnv(3, 20, svPreETH(pre, 0))
+	svLean = false
+	sv.Assume(pre.where == 0)
+	raw := svRaw(action.ETH_LOCK, &action_eth.Lock{Locker: nil, ETHTxn: svExtTxs[0].raw})
+	tx := action.SignedTx{RawTx: raw, Signatures: []action.Signature{{Signer: keys.PublicKey{KeyType: keys.BTCECSECP, Data: keys.SVKnownSecpPub}, Signed: make([]byte, 64)}}}
+	r := svCheckEnvGas(e.app, tx)
+	sv.Assert(r.Code != 0, "lock-without-any-valid-signature-is-refused-by-the-mempool")
+	sv.Cover(true, "checked")
+	sv.Observe("code", r.Code)
 }
